@@ -89,20 +89,78 @@ def _normalise_negated_selectors(e):
     return e
 
 
-class _NormHir(dict):
-    pass
+def _cfg_if_values(e, out):
+    """{line of the selector literal: its value} for every `if <cfg literal>` with an else arm"""
+    if isinstance(e, list):
+        for x in e:
+            _cfg_if_values(x, out)
+    elif isinstance(e, dict):
+        if e.get('e') == 'if' and e.get('else') is not None and _is_cfg_lit(e.get('cond')):
+            out[e['cond'].get('l')] = e['cond'].get('v')
+        for v in e.values():
+            _cfg_if_values(v, out)
 
 
-def _norm_facts_hir(f):
-    if getattr(f, '_s20_norm', None) is None:
-        f._s20_norm = {d: dict(h, body=_normalise_negated_selectors(h['body'])) for d, h in f.hir.items()}
-    return f._s20_norm
+def _flip_selected(e, lines):
+    """swap the arms (and flip the literal) of the cfg-ifs whose selector sits on one of `lines`: `cfg!(not(feature = ..))` diamonds become
+    `cfg!(feature = ..)` diamonds, in both builds alike"""
+    if isinstance(e, list):
+        return [_flip_selected(x, lines) for x in e]
+    if not isinstance(e, dict):
+        return e
+    e = {k: _flip_selected(v, lines) for k, v in e.items()}
+    if e.get('e') == 'if' and e.get('else') is not None and _is_cfg_lit(e.get('cond')) and e['cond'].get('l') in lines:
+        c = dict(e['cond'])
+        c['v'] = 'false' if c.get('v') == 'true' else 'true'
+        e['cond'] = c
+        e['then'], e['else'] = e['else'], e['then']
+    return e
+
+
+def _norm_pair(fd, fu):
+    """HIR of both builds with negated selectors (`!cfg!(f)`, `cfg!(not(f))`) rewritten to the positive form"""
+    if getattr(fu, '_s20_norm_pair', None) is None:
+        nd = {d: dict(h, body=_normalise_negated_selectors(h['body'])) for d, h in fd.hir.items()}
+        nu = {d: dict(h, body=_normalise_negated_selectors(h['body'])) for d, h in fu.hir.items()}
+        for d, hu in nu.items():
+            vals_u = {}
+            _cfg_if_values(hu['body'], vals_u)
+            if not vals_u or d not in nd:
+                continue
+            vals_d = {}
+            _cfg_if_values(nd[d]['body'], vals_d)
+            # selectors that are off in the feature build and on in the default build: the condition is the negation of the feature
+            lines = {l for l, v in vals_u.items() if v == 'false' and vals_d.get(l) == 'true'}
+            if lines:
+                nu[d] = dict(hu, body=_flip_selected(hu['body'], lines))
+                nd[d] = dict(nd[d], body=_flip_selected(nd[d]['body'], lines))
+        fu._s20_norm_pair = (nd, nu)
+    return fu._s20_norm_pair
+
+
+def _textual_unsafe_blocks():
+    import os
+    import re as _re
+    from engine import REPO
+    n = 0
+    for root, dirs, files in os.walk(os.path.join(REPO, 'src')):
+        for fn in files:
+            if not fn.endswith('.rs'):
+                continue
+            txt = open(os.path.join(root, fn), encoding='utf-8', errors='replace').read()
+            cut = txt.find('#[cfg(test)]')
+            if cut >= 0:
+                txt = txt[:cut]
+            txt = _re.sub(r'//[^\n]*', '', txt)
+            txt = _re.sub(r'"(?:\\.|[^"\\])*"', '""', txt)
+            n += len(_re.findall(r'\bunsafe\s*\{', txt))
+    return n
 
 
 def s20_unsafe_twins(ctx):
     fd = ctx.facts('default')
     fu = ctx.facts('unsafe')
-    fd_hir, fu_hir = _norm_facts_hir(fd), _norm_facts_hir(fu)
+    fd_hir, fu_hir = _norm_pair(fd, fu)
     r = RuleResult('S20', 'unsafe_performance build == default build except inside cfg!-selected diamonds whose arms are '
                           'checked/unchecked twins of the same access (and one affine-equivalent block move)')
     # ---- (1) inventory
@@ -259,8 +317,12 @@ def s20_unsafe_twins(ctx):
             r.violate('selector|%s|not-a-plain-diamond' % d, '%s contains %d feature selector(s) but %d examined `if cfg!(..) {..} else {..}` diamond(s): a '
                       'selector is combined with other conditions or used as a value, so feature-dependent behaviour escapes the twin check' % (
                           d, len(fl), examined.get(d, 0)), fu.bodies[k]['file'], fu.bodies[k]['line'])
-    r.floor('unsafe blocks', 9, n_unsafe)
-    r.floor('diamonds', 7, n_diamonds)
+    # the extractor must see every `unsafe` block the source text contains (counted independently, outside comments, strings and test
+    # modules): a refactoring may merge or split blocks, so the expected number is recomputed from the working tree, not frozen
+    n_text = _textual_unsafe_blocks()
+    r.floor('unsafe blocks (= `unsafe {` in the source text)', n_text, n_unsafe)
+    r.floor('unsafe blocks', 3, n_unsafe)
+    r.floor('diamonds', 2, n_diamonds)
     r.floor('bodies compared', 1500, len(ids_d & ids_u))
     r.info.update({'unsafe_blocks': n_unsafe, 'diamonds': n_diamonds, 'twin_helpers': twin_helpers})
     return r
